@@ -87,7 +87,24 @@ def _wrun(arg):
     }
     for pos, case in enumerate(chunk):
         try:
-            r = _mod.run_case(case)
+            try:
+                r = _mod.run_case(case)
+            except Exception as le:
+                import traceback as _tb
+
+                frames = _tb.extract_tb(le.__traceback__)
+                inner = getattr(le, "exc", None)
+                if inner is not None:
+                    frames = frames + _tb.extract_tb(inner.__traceback__)
+                lib_frames = [f for f in frames if f.filename.startswith(REPO + "/ctparse/")]
+                if not lib_frames:
+                    raise  # a bug of the harness itself
+                exc = inner if inner is not None else le
+                where = lib_frames[-1].name
+                if getattr(_mod, "ON_LIBRARY_RAISE", "violation") == "skip":
+                    r = {"o": "library-raised", "skip": "the library raised on this case (totality is C01's statement; nothing to judge here)", "nt": False}
+                else:
+                    r = {"o": "library-raised", "nt": True, "v": [{"sig": {"kind": "library_raised", "exc": type(exc).__name__, "where": where}, "msg": "library raised {!r} in {} on case {!r}".format(exc, where, case)[:500]}]}
         except BaseException as e:  # harness error: never reported as a VIOLATION
             out["err"] = "harness error on case {!r}: {}\n{}".format(case, e, traceback.format_exc())
             break
